@@ -1,11 +1,11 @@
 """Pilot for C11: which binding does `set_value` rewrite when the addressed binding's value is a reference?
 Documents: let <bindings> in { <bindings> } (plain or rec set). Model: assign-through via the resolver core
 (chain = let layer [+ the set itself when rec]), then the let_bindings fallback, then a sibling, then overwrite."""
-import sys, random, re, collections
-sys.path.insert(0, '/repo')
+import sys, random, re, collections, os, json
+from common import write_shards
 from nix_manipulator import parse
 from nix_manipulator.cli.manipulations import set_value
-R = random.Random(int(sys.argv[1])); N = int(sys.argv[2]); OUT = sys.argv[3]
+R = random.Random(int(sys.argv[1])); N = int(sys.argv[2]); outdir, prefix = sys.argv[3], sys.argv[4]
 NAMES = ['a', 'b', 'c', 'd']
 def gen_scope(k):
     names = R.sample(NAMES, k); out = []
@@ -68,8 +68,10 @@ while len(cases) < N:
     idx = next(j for j, b in enumerate(body) if b[0] == key)
     dist['direct' if exp == 200 + idx else 'elsewhere'] += 1
     cases.append('(%s, %s, %s, %d, %s, %d)' % (scope(let, 100), scope(body, 200), 'true' if rec else 'false', 200 + idx, val(body[idx][1]), exp))
-with open(OUT, 'w') as f:
-    f.write('From Coq Require Import List Ascii String Arith Bool. Import ListNotations.\nFrom R Require Import ResolveCore AssignThrough.\nOpen Scope string_scope.\nDefinition s (x : string) : str := list_ascii_of_string x.\n')
-    f.write('Definition cases : list (list entry * list entry * bool * nat * value * nat) := [\n' + ';\n'.join(cases) + '\n].\n')
-    f.write('Eval vm_compute in (List.length cases, List.length (filter (fun c => match c with (l, b, r, self, v, e) => negb (Nat.eqb (assign_target l b r self v) e) end) cases)).\n')
-print(dict(dist))
+HDR = 'From Coq Require Import List Ascii String Arith Bool. Import ListNotations.\nFrom R Require Import ResolveCore AssignThrough.\nOpen Scope string_scope.\nDefinition s (x : string) : str := list_ascii_of_string x.\n'
+OK = "Definition ok (c : list entry * list entry * bool * nat * value * nat) : bool := match c with (l, b, r, self, v, e) => Nat.eqb (assign_target l b r self v) e end.\n"
+write_shards(outdir, prefix, HDR, 'list entry * list entry * bool * nat * value * nat', OK, cases, 8)
+json.dump({'stats': {'rewritten': dict(dist), 'model_paths': dict(collections.Counter(KIND))}, 'keys': sorted(set(KIND)), 'distinct_count': len(set(cases)),
+           'rule': 'documents let <bindings> in [rec] { <bindings> } with reference chains, shadowing, cycles and dangling names; set KEY 777 on a key whose value may be a reference; which binding changed in the output is compared with assign_target',
+           'samples': [cases[0][:300]]}, open(os.path.join(outdir, prefix + '_summary.json'), 'w'))
+print(len(cases))
